@@ -151,18 +151,20 @@ def replayStep (S : ResidSys σ) (costs : Nat → Rat) (mask : Mask) (δ : Rat) 
      chosenMasked := zs.getD off false, bestOff := best, uniq := uniq,
      candN2 := cands.map fun c => S.norm2 st.lin c })
 
-def replayGo (S : ResidSys σ) (costs : Nat → Rat) (mask : Mask) (δ : Rat) :
+/-- replay with one acceptance budget per step (`δs[j]`, the last one repeated): the budget of a step may
+depend on how small the earlier pivots were (conditioning of the elimination so far) -/
+def replayGo (S : ResidSys σ) (costs : Nat → Rat) (mask : Mask) (δs : List Rat) :
     GState σ → Nat → List Nat → List StepVerdict → GState σ × List StepVerdict
   | st, _, [], acc => (st, acc.reverse)
   | st, j, off :: rest, acc =>
-    let r := replayStep S costs mask δ st j off
-    replayGo S costs mask δ r.1 (j + 1) rest (r.2 :: acc)
+    let r := replayStep S costs mask (δs.getD j (δs.getLastD 0)) st j off
+    replayGo S costs mask δs r.1 (j + 1) rest (r.2 :: acc)
 
-def replay (costs : Nat → Rat) (mask : Mask) (δ : Rat) (B : RMat) (tr : List Nat) :
+def replay (costs : Nat → Rat) (mask : Mask) (δs : List Rat) (B : RMat) (tr : List Nat) :
     GState RMat × List StepVerdict :=
-  replayGo gramSys costs mask δ { lin := gram B, p := Array.range B.size } 0 tr []
+  replayGo gramSys costs mask δs { lin := gram B, p := Array.range B.size } 0 tr []
 
 def accepts (costs : Nat → Rat) (mask : Mask) (δ : Rat) (B : RMat) (tr : List Nat) : Bool :=
-  (replay costs mask δ B tr).2.all (·.ok)
+  (replay costs mask [δ] B tr).2.all (·.ok)
 
 end PsVerif
